@@ -242,7 +242,8 @@ impl Default for CommandBuffer {
     fn default() -> Self {
         Self {
             cmds: Vec::new(),
-            storage: NonNull::dangling(),
+            // Aligned like `layout` so that zero-sized components can live at offset 0
+            storage: NonNull::<u64>::dangling().cast(),
             layout: Layout::from_size_align(0, 8).unwrap(),
             cursor: 0,
             components: Vec::new(),
